@@ -140,4 +140,8 @@ def main(ids, matrix="/tmp/ev_matrix"):
 
 
 if __name__ == "__main__":
-    main(sys.argv[1:] or sorted(os.listdir(os.path.join(V, "seeded"))))
+    args = sys.argv[1:]
+    mdir = "/tmp/ev_matrix"
+    if args and args[0] == "--matrix":
+        mdir, args = args[1], args[2:]
+    main(args or sorted(os.listdir(os.path.join(V, "seeded"))), mdir)
